@@ -188,7 +188,8 @@ def mutation(draw, kind: str, info: dict, cur: Any):
             c = p["v"]
             if isinstance(c, (bytes, bytearray)):
                 c = bytes(c)
-                near = [c.rstrip(b"\x00"), c + b"\x00", c[:-1], b"\x00" + c, bytes(reversed(c)), c[:-1] + bytes([c[-1] ^ 1])]
+                near = [c.rstrip(b"\x00"), c + b"\x00", c[:-1], b"\x00" + c, bytes(reversed(c))] + \
+                    ([c[:-1] + bytes([c[-1] ^ 1])] if c else [])
             elif isinstance(c, bool) or not isinstance(c, (int, float)):
                 near = [str(c) + " ", str(c).lower(), str(c)[:-1]]
             elif isinstance(c, int):
